@@ -7,3 +7,5 @@ CONSTANTS
   MaxNames = 3
   MaxEntries = 2
   DjbLen = 2
+  PoolNames = 2
+  RawLen = 2
